@@ -28,7 +28,7 @@ Keywords == {"break", "case", "chan", "const", "continue", "default", "defer", "
 NameOK(n) == n.ident_ok /\ n.str \notin Keywords /\ n.str # "_" /\ n.str # ""
 
 (* what a reference of each kind mentions, and the text it must render to under the table `tbl` *)
-RefsOf(kind, path) == IF kind = "generic" THEN {path, "encoding/json"} ELSE {path}
+RefsOf(kind, path) == IF kind = "generic" THEN {path, "encoding/json"} ELSE IF kind = "generictime" THEN {path, "time"} ELSE {path}
 
 Q(tbl, p, self) == IF p = self THEN "" ELSE IF p \in DOMAIN tbl THEN tbl[p].str \o "." ELSE "?."
 Rendered(kind, path, self, tbl) ==
@@ -36,6 +36,8 @@ Rendered(kind, path, self, tbl) ==
       [] kind = "expose"  -> Q(tbl, path, self) \o "Fn"
       [] kind = "typelit" -> "map[string]*" \o Q(tbl, path, self) \o "T"
       [] kind = "generic" -> Q(tbl, path, self) \o "G[" \o Q(tbl, "encoding/json", self) \o "RawMessage," \o Q(tbl, self, self) \o "L]"
+      (* the only foreign type argument comes from a package whose import path has ONE element (no slash in the whole argument list) *)
+      [] kind = "generictime" -> Q(tbl, path, self) \o "G[string," \o Q(tbl, "time", self) \o "Duration]"
 
 (* one step of a history: the table before, the table after, the reference made, the text printed *)
 StepOK(before, after, kind, path, self, text) ==
